@@ -198,11 +198,35 @@ def splitFam (g : List (List Route)) : List (List Route) :=
 
 def famGroups : List (List Route) := table.flatMap splitFam
 
-theorem famGroups_flatten : famGroups.flatten = routes := by decide +kernel
+theorem table_fam_bounded : (table.all fun g => g.all fun fg => decide (gfam fg < 8)) = true := by decide +kernel
+
+theorem mem_splitFam (g : List (List Route)) (h : ∀ fg ∈ g, gfam fg < 8) :
+    ∀ r ∈ g.flatten, r ∈ (splitFam g).flatten := by
+  intro r hr
+  obtain ⟨fg, hfg, hrfg⟩ := List.mem_flatten.mp hr
+  refine List.mem_flatten.mpr ⟨(g.filter fun x => decide (gfam x = gfam fg)).flatten, ?_, ?_⟩
+  · unfold splitFam
+    refine List.mem_filter.mpr ⟨List.mem_map.mpr ⟨gfam fg, List.mem_range.mpr (h fg hfg), rfl⟩, ?_⟩
+    have : r ∈ (g.filter fun x => decide (gfam x = gfam fg)).flatten :=
+      List.mem_flatten.mpr ⟨fg, List.mem_filter.mpr ⟨hfg, by simp⟩, hrfg⟩
+    cases hl : (g.filter fun x => decide (gfam x = gfam fg)).flatten with
+    | nil => rw [hl] at this; cases this
+    | cons a l => rfl
+  · exact List.mem_flatten.mpr ⟨fg, List.mem_filter.mpr ⟨hfg, by simp⟩, hrfg⟩
+
+theorem mem_famGroups : ∀ r ∈ routes, r ∈ famGroups.flatten := by
+  intro r hr
+  obtain ⟨fg, hfg, hrfg⟩ := List.mem_flatten.mp hr
+  obtain ⟨g, hg, hfgg⟩ := List.mem_flatten.mp hfg
+  have hb : ∀ x ∈ g, gfam x < 8 := by
+    intro x hx
+    have := List.all_eq_true.mp (List.all_eq_true.mp table_fam_bounded g hg) x hx
+    simpa using this
+  have h1 : r ∈ (splitFam g).flatten := mem_splitFam g hb r (List.mem_flatten.mpr ⟨fg, hfgg, hrfg⟩)
+  obtain ⟨l, hl, hrl⟩ := List.mem_flatten.mp h1
+  exact List.mem_flatten.mpr ⟨l, List.mem_flatMap.mpr ⟨g, hg, hl⟩, hrl⟩
 
 theorem famGroups_ok : tableOK famKey coreOf famGroups = true := by decide +kernel
-
-theorem routes_fam_bounded : routes.all (fun r => decide (famOf r < 8)) = true := by decide +kernel
 
 /-- **C11, keyword arguments across forms.**  Spellings of one operation on the same operand classes within one family of
     forms reach the same classes with the same operands and the same computation options, wherever the result is written. -/
@@ -212,8 +236,7 @@ theorem routes_same_options :
   have hb := List.all_eq_true.mp routes_bounded
   have hk : r₁.opKey = r₂.opKey := (opKey_inj (hb r₁ h₁) (hb r₂ h₂)).mpr ⟨hs.1, hs.2.1⟩
   have hk' : famKey r₁ = famKey r₂ := by unfold famKey; rw [hk, hs.2.2]
-  rw [← famGroups_flatten] at h₁ h₂
-  exact tableOK_sound famKey coreOf famGroups famGroups_ok r₁ h₁ r₂ h₂ hk'
+  exact tableOK_sound famKey coreOf famGroups famGroups_ok r₁ (mem_famGroups r₁ h₁) r₂ (mem_famGroups r₂ h₂) hk'
 
 /-- the table is not vacuous: every registered override has a probe, every group compares at least two spellings, and
     there are routes of every kind of spelling -/
